@@ -123,6 +123,70 @@ def new_code_case(tab, t, r, cmd):
     return out.i == r
 
 
+def _one_rewrite(path, t, r, cmd):
+    Env.text = Txt(t)
+    Env.replaced = Txt(r)
+    Env.fcalls = 0
+    Env.formatted_inputs = []
+    out = RC.SourceFile(path).new_code()
+    clean = F(t) == t
+    if cmd or clean:
+        return out.i == F(r) and F(out.i) == out.i
+    for x in Env.formatted_inputs:
+        if x.i == r and not (r == t):
+            return False
+    return out.i == r
+
+
+def same_path_twice_case(tab, t1, r1, t2, r2, cmd):
+    """the same path is rewritten twice in one interpreter (in-process re-runs: pytest.main called twice, run_inline,
+    IDE runners) with different file contents: each rewrite is judged by the content the file has at that time"""
+    _install()
+    for k in range(N):
+        fk = tab[k]
+        ok = False
+        for j in range(N):
+            if fk == j and tab[j] == j:
+                ok = True
+        if not ok:
+            return True
+    Env.table = tab
+    old = CFG.config.format_command
+    CFG.config.format_command = "fmt {filename}" if cmd else None
+    path = FakePath()  # one path object for both rewrites (a fresh one per explored path)
+    try:
+        first = _one_rewrite(path, t1, r1, cmd)
+        second = _one_rewrite(path, t2, r2, cmd)
+    finally:
+        CFG.config.format_command = old
+        _uninstall()
+    PathLog.record(f"twice{cmd}{bool(F(t1) == t1)}{bool(F(t2) == t2)}", nontrivial=True, sample={"format_command": bool(cmd), "first_file_clean": bool(F(t1) == t1), "second_file_clean": bool(F(t2) == t2)})
+    return first and second
+
+
+def same_path_twice_concrete():
+    """contract validation of an engine assumption: CrossHair calls the function behind a functools.lru_cache wrapper
+    directly, so state kept in such a cache is invisible to the symbolic conditions above.  The same case is therefore
+    also run concretely (no tracing) on every idempotent formatter table of a 3-text domain."""
+    import itertools
+
+    global N
+    ok = True
+    n_saved = N
+    N = 3
+    try:
+        for tab in itertools.product(range(3), repeat=3):
+            if any(tab[tab[k]] != tab[k] for k in range(3)):
+                continue
+            for t1, t2, r2, cmd in itertools.product(range(3), range(3), range(3), (False, True)):
+                if not same_path_twice_case(list(tab), t1, 2, t2, r2, cmd):
+                    ok = False
+                    PathLog.record(f"twiceconcrete{tab}{t1}{t2}{r2}{cmd}", nontrivial=True, sample={"formatter_table": list(tab), "first_content": t1, "second_content": t2, "second_replaced": r2, "format_command": cmd})
+    finally:
+        N = n_saved
+    return ok
+
+
 def file_mode_case(has_ll, ll, has_mtc, skip_mtc, has_sn, skip_sn, has_pv, pv, has_file):
     import black
 
@@ -185,7 +249,7 @@ def black_fixed_point_corpus():
     return ok
 
 
-GLB = {"new_code_case": new_code_case, "file_mode_case": file_mode_case, "__name__": "harness.c20"}
+GLB = {"same_path_twice_case": same_path_twice_case, "new_code_case": new_code_case, "file_mode_case": file_mode_case, "__name__": "harness.c20"}
 
 
 def conditions(tier):
@@ -198,11 +262,20 @@ def conditions(tier):
             fn = mkfn(name, params, f"return new_code_case([{', '.join(f'f{i}' for i in range(N))}], t, r, cmd)", GLB, pre=[rng, f"cmd == {cmd} and t == {tv}"])
             conds.append(Cond(name, fn, timeout=900, group="new_code",
                               bounds=f"every idempotent formatter on a {N}-text domain, original text #{tv}, every replaced text, format-command {'set' if cmd else 'not set'}"))
+    params2 = [(f"f{i}", "int") for i in range(N)] + [("t1", "int"), ("r1", "int"), ("t2", "int"), ("r2", "int"), ("cmd", "bool")]
+    rng2 = " and ".join(f"0 <= f{i} < {N}" for i in range(N)) + f" and 0 <= r1 < {N} and 0 <= r2 < {N}"
+    for t1v, t2v in ((0, 1), (1, 0), (0, 2), (1, 1)):
+        name = f"same_path_twice_t{t1v}{t2v}"
+        fn = mkfn(name, params2, f"return same_path_twice_case([{', '.join(f'f{i}' for i in range(N))}], t1, r1, t2, r2, cmd)", GLB, pre=[rng2, f"t1 == {t1v} and t2 == {t2v} and r1 == 3"])
+        conds.append(Cond(name, fn, timeout=900, group="new_code",
+                          bounds=f"one path rewritten twice in one interpreter: every idempotent formatter on a {N}-text domain, file content #{t1v} then #{t2v}, first replaced text #3, every second replaced text, format-command set or not"))
     tw = mkfn("new_code_twin", params, f"return new_code_case([{', '.join(f'f{i}' for i in range(N))}], t, r, cmd)", GLB, pre=[rng, "f0 == 0 and f1 == 0 and f2 == 2 and f3 == 2 and f4 == 4"], post="not _")
     conds.append(Cond("new_code_twin", tw, timeout=60, twin=True))
     fm = [("has_ll", "bool"), ("ll", "int"), ("has_mtc", "bool"), ("skip_mtc", "bool"), ("has_sn", "bool"), ("skip_sn", "bool"), ("has_pv", "bool"), ("pv", "bool"), ("has_file", "bool")]
     conds.append(Cond("file_mode", mkfn("file_mode", fm, "return file_mode_case(has_ll, ll, has_mtc, skip_mtc, has_sn, skip_sn, has_pv, pv, has_file)", GLB, pre=["1 <= ll <= 500"]), timeout=600, group="file_mode",
                       bounds="every presence pattern of line_length / skip_magic_trailing_comma / skip_string_normalization / preview in [tool.black], every value, pyproject found or not"))
+    conds.append(Cond("same_path_twice_concrete", same_path_twice_concrete, concrete=True, group="contract-validation",
+                      bounds="engine assumption check (functools caches are bypassed by the engine): one path rewritten twice, all 10 idempotent formatters on a 3-text domain x contents x replaced text x format-command, run concretely"))
     conds.append(Cond("black_fixed_point_corpus", black_fixed_point_corpus, concrete=True, group="contract-validation", bounds="8 formatter-clean files with values that wrap / explode; real black, real pipeline"))
     return conds
 
@@ -211,7 +284,8 @@ META = {
     "bounds": {"quick": "formatter = arbitrary idempotent function on a 5-element text domain (complete: <= 4 distinct texts occur in new_code); all combinations of original/replaced text and format-command; all black option patterns",
                "thorough": "same (complete)"},
     "outside": "that black really is idempotent on the produced text (long values re-wrapping, magic trailing commas): not encodable (mypyc) - observed on every explored text of the clean layout template of C03 and on a fixed corpus here",
-    "assumptions": ["texts are abstract ids; the replacement step (asttokens.util.replace, LineNumbers) is replaced by 'yields text r'",
+    "assumptions": ["CrossHair calls the function behind a functools.lru_cache wrapper directly; state in such caches is covered only by the concrete item same_path_twice_concrete",
+                    "texts are abstract ids; the replacement step (asttokens.util.replace, LineNumbers) is replaced by 'yields text r'",
                     "black.find_pyproject_toml / parse_pyproject_toml replaced by a symbolic configuration for file_mode_for_path; black.FileMode replaced by a plain-Python stand-in with black's defaults (the mypyc class rejects symbolic attribute values)"],
 }
 
